@@ -267,8 +267,7 @@ def prove(ctx, module_name, gen_which=None):
 
 # ---------------------------------------------------------------------------------------
 # driver / probe batches
-def batch(exe, lines, timeout=600, env=None, cwd=None):
-    """feed lines to a line-protocol process; returns list of reply lines (same length), or raises"""
+def _batch1(exe, lines, timeout=600, env=None, cwd=None):
     data = ("\n".join(lines) + "\n").encode()
     p = subprocess.run([exe] if isinstance(exe, str) else exe, input=data, stdout=subprocess.PIPE,
                        stderr=subprocess.PIPE, timeout=timeout, env=env, cwd=cwd)
@@ -278,13 +277,39 @@ def batch(exe, lines, timeout=600, env=None, cwd=None):
     return out, p.returncode, p.stderr.decode(errors="replace")
 
 
-def batch_robust(exe, lines, timeout=600, env=None):
-    """like batch, but when the process dies (sanitizer abort, signal) bisect to the line that
-    kills it; returns (replies with 'CRASH <rc> <stderr tail>' in that slot)"""
+PAR_MIN = 600     # batches at least this long are split over the cores (every protocol line is independent)
+PAR_JOBS = 16
+
+
+def _chunks(lines):
+    n = min(PAR_JOBS, max(1, len(lines) // 200))
+    size = (len(lines) + n - 1) // n
+    return [lines[i:i + size] for i in range(0, len(lines), size)]
+
+
+def batch(exe, lines, timeout=600, env=None, cwd=None):
+    """feed lines to a line-protocol process; returns list of reply lines (same length), or raises"""
+    if len(lines) < PAR_MIN:
+        return _batch1(exe, lines, timeout, env, cwd)
+    from concurrent.futures import ThreadPoolExecutor
+    parts = _chunks(lines)
+    with ThreadPoolExecutor(len(parts)) as ex:
+        res = list(ex.map(lambda ch: _batch1(exe, ch, timeout, env, cwd), parts))
+    out, rc, err = [], 0, ""
+    for ch, (o, r, e) in zip(parts, res):
+        if r != 0 or len(o) != len(ch):
+            # a chunk died: report what a single process would have reported up to that point
+            return out + o, (r if r != 0 else 1), e
+        out += o
+        err += e
+    return out, rc, err
+
+
+def _batch_robust1(exe, lines, timeout=600, env=None):
     replies = []
     i = 0
     while i < len(lines):
-        out, rc, err = batch(exe, lines[i:], timeout, env)
+        out, rc, err = _batch1(exe, lines[i:], timeout, env)
         if len(out) >= len(lines) - i and rc == 0:
             replies += out[:len(lines) - i]
             break
@@ -293,7 +318,7 @@ def batch_robust(exe, lines, timeout=600, env=None):
         # be careful: last reply may be partial; re-run that single line alone to classify
         good = out[:k]
         replies += good
-        o2, rc2, err2 = batch(exe, [lines[i + k]], timeout, env)
+        o2, rc2, err2 = _batch1(exe, [lines[i + k]], timeout, env)
         if rc2 == 0 and len(o2) == 1:
             replies.append(o2[0])
         else:
@@ -302,6 +327,18 @@ def batch_robust(exe, lines, timeout=600, env=None):
             replies.append("CRASH rc=%d %s" % (rc2, summ[:200]))
         i += k + 1
     return replies
+
+
+def batch_robust(exe, lines, timeout=600, env=None):
+    """like batch, but when the process dies (sanitizer abort, signal) bisect to the line that
+    kills it; returns (replies with 'CRASH <rc> <stderr tail>' in that slot)"""
+    if len(lines) < PAR_MIN:
+        return _batch_robust1(exe, lines, timeout, env)
+    from concurrent.futures import ThreadPoolExecutor
+    parts = _chunks(lines)
+    with ThreadPoolExecutor(len(parts)) as ex:
+        res = list(ex.map(lambda ch: _batch_robust1(exe, ch, timeout, env), parts))
+    return [r for part in res for r in part]
 
 
 def hexs(b):
